@@ -44,9 +44,9 @@ type Op struct {
 
 func (o Op) String() string {
 	switch o.K {
-	case "define", "set", "deftype":
+	case "define", "set", "deftype", "cset":
 		return fmt.Sprintf("%s(%s,%d)", o.K, o.N, o.V)
-	case "get", "delete", "delnear", "type":
+	case "get", "delete", "delnear", "type", "cget", "caddr", "ctype":
 		return fmt.Sprintf("%s(%s)", o.K, o.N)
 	}
 	return o.K + "()"
@@ -60,6 +60,11 @@ type Prog struct {
 	ParentVals  []string `json:"parent_vals,omitempty"`
 	ParentTypes []string `json:"parent_types,omitempty"`
 	Threads     [][]Op   `json:"threads"`
+	// Warm: operations done on the shared scope, one after the other, BEFORE the threads start: Warm[0]
+	// deletes, Warm[1] listings, Warm[2] copies of names / tables that leave the contents as they are
+	// (an implementation that reorganises a scope every so many operations reaches that point
+	// inside the concurrent phase)
+	Warm []int `json:"warm,omitempty"`
 }
 
 // delnearPair reports the names n for which the program has the shape of the DeleteGlobal
@@ -136,7 +141,7 @@ func withName(l []string, n string) []string {
 	return out
 }
 
-var opKinds = []string{"define", "define", "set", "set", "get", "get", "delete", "delnear", "deftype", "type", "copy", "deepcopy", "syms", "tsyms", "string"}
+var opKinds = []string{"define", "define", "set", "set", "get", "get", "delete", "delnear", "deftype", "type", "copy", "deepcopy", "syms", "tsyms", "string", "cget", "cset", "caddr", "ctype"}
 
 func genSubset(t *rapid.T, label string, pNum int) []string {
 	var out []string
@@ -155,6 +160,10 @@ func genProg(t *rapid.T, withString bool) Prog {
 		ParentVals:  genSubset(t, "pv", 2),
 		ParentTypes: genSubset(t, "pt", 2),
 	}
+	if rapid.IntRange(0, 2).Draw(t, "warm?") == 0 {
+		counts := []int{0, 1, 2, 3, 6, 7, 8, 14, 15, 16, 17, 30, 31, 32, 62, 63, 64}
+		p.Warm = []int{rapid.SampledFrom(counts).Draw(t, "warmdel"), rapid.SampledFrom(counts[:8]).Draw(t, "warmsyms"), rapid.SampledFrom(counts[:8]).Draw(t, "warmcopy")}
+	}
 	nt := rapid.IntRange(2, 3).Draw(t, "threads")
 	next := 10
 	for i := 0; i < nt; i++ {
@@ -171,8 +180,12 @@ func genProg(t *rapid.T, withString bool) Prog {
 				op.N = rapid.SampledFrom(pool).Draw(t, "name")
 				op.V = next
 				next++
-			case "get", "delete", "delnear", "type":
+			case "get", "delete", "delnear", "type", "cget", "caddr", "ctype":
 				op.N = rapid.SampledFrom(pool).Draw(t, "name")
+			case "cset":
+				op.N = rapid.SampledFrom(pool).Draw(t, "name")
+				op.V = next
+				next++
 			}
 			ops = append(ops, op)
 		}
@@ -212,11 +225,11 @@ func validProg(p Prog) error {
 		}
 		for _, op := range th {
 			switch op.K {
-			case "define", "set", "deftype":
+			case "define", "set", "deftype", "cset":
 				if nameIdx(op.N) < 0 || op.V < 7 || op.V >= len(typeTab) {
 					return fmt.Errorf("bad op %v", op)
 				}
-			case "get", "delete", "delnear", "type":
+			case "get", "delete", "delnear", "type", "cget", "caddr", "ctype":
 				if nameIdx(op.N) < 0 {
 					return fmt.Errorf("bad op %v", op)
 				}
@@ -311,7 +324,8 @@ func apply(s state, op Op) (state, string) {
 	case "define":
 		s.cv[i] = op.V
 		return s, "ok"
-	case "set":
+	case "set", "cset":
+		// cset: Set through an (empty) child of the shared scope: the nearest binding is the same
 		if s.cv[i] != 0 {
 			s.cv[i] = op.V
 			return s, "ok"
@@ -321,7 +335,14 @@ func apply(s state, op Op) (state, string) {
 			return s, "ok"
 		}
 		return s, "err"
-	case "get":
+	case "caddr":
+		// Addr through the child: the pool values are not addressable, so the answer only tells
+		// whether a binding was found along the chain
+		if s.cv[i] != 0 || s.pv[i] != 0 {
+			return s, "unaddressable"
+		}
+		return s, "undefined"
+	case "get", "cget":
 		if s.cv[i] != 0 {
 			return s, "v" + strconv.Itoa(s.cv[i])
 		}
@@ -342,7 +363,7 @@ func apply(s state, op Op) (state, string) {
 	case "deftype":
 		s.ct[i] = op.V
 		return s, "ok"
-	case "type":
+	case "type", "ctype":
 		if s.ct[i] != 0 {
 			return s, "t" + strconv.Itoa(s.ct[i])
 		}
@@ -368,6 +389,7 @@ func apply(s state, op Op) (state, string) {
 
 type world struct {
 	parent, shared *env.Env
+	child          *env.Env // an empty scope below the shared one (operations c*)
 }
 
 // build creates the parent and the shared scope (sequentially; no hook installed).
@@ -385,6 +407,19 @@ func build(p Prog) world {
 	}
 	for _, n := range p.ChildTypes {
 		w.shared.DefineReflectType(n, typeTab[1+nameIdx(n)])
+	}
+	w.child = w.shared.NewEnv()
+	if len(p.Warm) == 3 {
+		for i := 0; i < p.Warm[0] && i < 200; i++ {
+			w.shared.Delete("warm") // a name that is never bound
+		}
+		for i := 0; i < p.Warm[1] && i < 200; i++ {
+			w.shared.GetValueSymbols()
+			w.shared.GetTypeSymbols()
+		}
+		for i := 0; i < p.Warm[2] && i < 200; i++ {
+			w.shared.Copy()
+		}
 	}
 	return w
 }
@@ -464,6 +499,29 @@ func stringUsable() bool {
 func execOp(w world, op Op) string {
 	e := w.shared
 	switch op.K {
+	case "cget":
+		v, err := w.child.Get(op.N)
+		if err != nil {
+			return "err"
+		}
+		return "v" + valID(v)
+	case "cset":
+		return errText(w.child.Set(op.N, op.V))
+	case "caddr":
+		_, err := w.child.Addr(op.N)
+		switch {
+		case err == nil:
+			return "addressable"
+		case strings.Contains(err.Error(), "unaddressable"):
+			return "unaddressable"
+		}
+		return "undefined"
+	case "ctype":
+		t, err := w.child.Type(op.N)
+		if err != nil {
+			return "err"
+		}
+		return "t" + typeID(t)
 	case "define":
 		return errText(e.Define(op.N, op.V))
 	case "set":
@@ -580,13 +638,13 @@ func touches(op Op) (reads, writes []string) {
 		return o
 	}
 	switch op.K {
-	case "define", "set", "delete", "delnear":
+	case "define", "set", "delete", "delnear", "cset":
 		return nil, []string{"v:" + op.N}
-	case "get":
+	case "get", "cget", "caddr":
 		return []string{"v:" + op.N}, nil
 	case "deftype":
 		return nil, []string{"t:" + op.N}
-	case "type":
+	case "type", "ctype":
 		return []string{"t:" + op.N}, nil
 	case "syms":
 		return all("v:"), nil
